@@ -118,6 +118,23 @@ pub fn size_of(layers: &[Layer]) -> f64 {
         .sum()
 }
 
+/// Lever arm behind the flange: an orientation error d of the flange moves the tool point by up to lever*d.
+pub fn tool_lever(layers: &[Layer]) -> f64 {
+    layers
+        .iter()
+        .map(|l| match l {
+            Layer::Tool(t) | Layer::Frame(t) => norm(&t.t),
+            _ => 0.0,
+        })
+        .sum()
+}
+
+/// Position tolerance for an inverse answer mapped back through the stack: the solver's 1 um at the flange,
+/// its 1 urad amplified by the tool lever, plus float slack.
+pub fn back_tol_p(size: f64, layers: &[Layer]) -> f64 {
+    1e-6 + 1e-6 * tool_lever(layers) + 1e-9 * (1.0 + size)
+}
+
 pub fn para_strategy() -> BoxedStrategy<Layer> {
     (0u8..6, 0u8..5, prop_oneof![2 => Just(1.0), 1 => Just(0.0), 1 => Just(-1.0), 4 => -2.0..2.0f64])
         .prop_map(|(driven, c, scaling)| {
